@@ -83,6 +83,19 @@ def programs(tier: str):
             "cb": "sync",
             "cancel_enter": 2,
         }
+    # a (task-placed) nested scope whose body is cancelled: it is left by the cancellation and still
+    # completes exactly once, and so do its ancestors
+    for place in ("spawn", "create"):
+        yield {
+            "tree": {"kind": "a", "place": "root", "c": [{"kind": "a", "place": place, "c": []}]},
+            "cb": "alt",
+            "cancel_body": 1,
+        }
+        yield {
+            "tree": {"kind": "a", "place": "root", "c": [{"kind": "a", "place": place, "c": [{"kind": "s", "place": "inline", "c": []}]}]},
+            "cb": "sync",
+            "cancel_body": 1,
+        }
     if tier == "thorough":
         from hv.ctxkit import forest_shapes
 
@@ -122,8 +135,20 @@ class SuspDisp(Disp):
 
 
 def execute(program, ch: Chooser) -> Result:  # noqa: C901, PLR0915
-    w = World(ch, cancel_budget=1 if program.get("cancel_enter") is not None else 0)
-    w.on_quiescent = lambda: vtime.advance(0.125)
+    w = World(ch, cancel_budget=1 if (program.get("cancel_enter") is not None or program.get("cancel_body") is not None) else 0)
+    flips: list = []
+
+    def on_quiescent() -> None:
+        vtime.advance(0.125)
+        # from its completion on a scope reports completed - at every later quiescent point
+        if not flips:
+            for nid, n in nodes.items():
+                m = n.get("metrics")
+                if m is not None and n["cbs"] and not m.is_completed:
+                    flips.append((nid, [list(e) for e in events]))
+                    break
+
+    w.on_quiescent = on_quiescent
     entering: dict = {}
     w.cancel_filter = lambda name, t: entering.get(name, False)
     viols: list[dict] = []
@@ -195,6 +220,9 @@ def execute(program, ch: Chooser) -> Result:  # noqa: C901, PLR0915
         nodes[nid]["entered"] = seq()
         events.append(("entered", nid))
         exc_info = (None, None, None)
+        if program.get("cancel_body") == nid:
+            w.add_victim(f"n{nid}", asyncio.current_task())
+            entering[f"n{nid}"] = True  # cancellable while in the body
         try:
             for c in t["c"]:
                 if c["place"] == "inline":
@@ -213,6 +241,7 @@ def execute(program, ch: Chooser) -> Result:  # noqa: C901, PLR0915
         except asyncio.CancelledError as exc:
             exc_info = (type(exc), exc, exc.__traceback__)
             events.append(("body-cancelled", nid))
+        entering[f"n{nid}"] = False
         events.append(("exit-start", nid))
         try:
             if t["kind"] == "a":
@@ -296,6 +325,8 @@ def execute(program, ch: Chooser) -> Result:  # noqa: C901, PLR0915
                             [list(e) for e in events],
                         )
                     )
+        if flips:
+            viols.append(viol("completed-flag", f"flips-back-transiently/{nodes[flips[0][0]]['spec']['place']}", True, False, node=flips[0][0], events=flips[0][1]))
         if errors:
             viols.append(
                 viol(
